@@ -5,6 +5,8 @@ from .props_h1 import *
 
 
 def h1prop(module, proj, streams, oracles=None, twins=None, twin_rel=None, phase2=None, **kw):
+    if "spec_fields" not in kw:
+        kw["spec_fields"] = SPEC_FIELDS.get(module.split(".")[-1])
     if "visible" not in kw:
         kw["visible"] = VISIBLE.get(module.split(".")[-1])
     d = dict(module=module, proj=proj, streams=streams, oracles=oracles or [], twins=twins, twin_rel=twin_rel,
@@ -19,6 +21,8 @@ VISIBLE = {
     "C12": P(["errs"]), "C14": P(["val", "noerr", "errs"]), "C15": P(["val", "errs"]), "C16": P(["val", "errs", "cnt"]),
     "C17": P(["val", "errs"]),
 }
+
+SPEC_FIELDS = {"C01": ["match", "val"], "C02": ["trace"], "C05": ["stores"], "C14": ["match", "val"], "C11": ["errs"], "C17": ["match", "val", "errs"]}
 
 PROPS = {
     "C01": h1prop("PigeonVerif.Properties.C01", P(["val", "pos", "noerr"]),
